@@ -112,6 +112,26 @@ def state_rows_upserted_atomically(ck: Checker, rule: str) -> None:
                 parts = [c.value for c in ast.walk(st.value) if isinstance(c, ast.Constant) and isinstance(c.value, str)]
                 if parts:
                     joined.append(" ".join(parts).upper())
+    # ... or as module-level constants (possibly assembled from other module-level pieces with an f-string)
+    mod_consts = {}
+    for st in fn.module.tree.body:
+        tg = st.targets[0] if isinstance(st, ast.Assign) and len(st.targets) == 1 else (st.target if isinstance(st, ast.AnnAssign) else None)
+        if isinstance(tg, ast.Name) and getattr(st, "value", None) is not None:
+            mod_consts[tg.id] = st.value
+
+    def const_text(e, depth=0):
+        out = []
+        for c in ast.walk(e):
+            if isinstance(c, ast.Constant) and isinstance(c.value, str):
+                out.append(c.value)
+            elif isinstance(c, ast.Name) and c.id in mod_consts and depth < 3:
+                out.append(const_text(mod_consts[c.id], depth + 1))
+        return " ".join(out)
+
+    for nm in {x.id for x in ast.walk(fn.node) if isinstance(x, ast.Name) and isinstance(x.ctx, ast.Load) and x.id in mod_consts}:
+        t_ = const_text(mod_consts[nm]).upper()
+        if t_.strip():
+            joined.append(t_)
     reads = [c for c in ast.walk(fn.node) if isinstance(c, ast.Call) and isinstance(c.func, ast.Attribute) and c.func.attr in ("get_many", "get", "fetchall", "fetchone")]
     sel = [t for t in joined if t.lstrip().startswith("SELECT")]
     ck.require(not reads and not sel, rule, fn, reads[0] if reads else fn.node, "set_many does not read the table before writing", "set_many reads the current rows before writing (check-then-insert): between the look-up and the write another writer sharing the database can insert the same key", construct="set_many / no read-before-write")
